@@ -1,60 +1,87 @@
 """C04 — routing schemes deliver along their promised hop structure.
-Tie: exhaustive over layouts N x p.  (1) every rank of a simmpi job prints the layout tables and
-router().next_hop(d, scheme) for all d and the three schemes; compared entry by entry with
-YgmVerif.Router run by the Lean driver; the real next-hop tables are composed into routes and the
-theorem conclusions are evaluated on them (oracle).  (2) wire: with exactly one async in flight between
-barriers, the (sender, receiver) sequence of MPI sends on the async communicator must be the model's
-`route` for every (s, d) and every scheme, and the property's clauses must hold on the wire."""
+Tie: exhaustive over layouts N x p and two placements of the ranks on the nodes (block: rank r on node r / p;
+round-robin: rank r on node r % N, simmpi SIMMPI_PLACEMENT=cyclic).  (1) every rank of a simmpi job prints the
+layout tables and router().next_hop(d, scheme) for all d and the three schemes; compared entry by entry with the
+placement-generic model YgmVerif.RouterP (and, for block, with the block-only YgmVerif.Router) run by the Lean
+driver; the real next-hop tables are composed into routes and the theorem conclusions are evaluated on them (oracle).
+(2) wire: with exactly one async in flight between barriers, the (sender, receiver) sequence of MPI sends on the
+async communicator must be the model's `route` for every (s, d) and every scheme, and the property's clauses must
+hold on the wire."""
 from lib import common as C
 
 META = {
     "claimed": True,
-    "technique": "Lean 4 proof (closed forms of NR/NLNR routes by div/mod arithmetic, all N, p, s, d) + exhaustive next-hop table and "
-                 "wire-level route correspondence with comm_router.hpp / layout.hpp / comm.ipp on every layout of a box",
+    "technique": "Lean 4 proof (closed forms of NR/NLNR routes for EVERY placement whose (node_id, local_id) tables are a bijection; block and "
+                 "round-robin placements proved to be instances for all N, p) + exhaustive next-hop table and wire-level route correspondence "
+                 "with comm_router.hpp / layout.hpp / comm.ipp on every layout of a box under both placements",
     "text": "Theorems route_none / route_NR_shape / route_NLNR_shape / route_ends_at_dest / route_nodup / route_lt / offnode_same_local / "
-            "offHops_NR / offHops_NLNR / NLNR_pairs_subset_NR / NLNR_single_pair over YgmVerif.Router prove for every p > 0 and all ranks that "
-            "the hop iteration of next_hop gives [d] under NONE, off/on under NR (<= 2 hops), on/off/on under NLNR (<= 3 hops), ends at d, never "
-            "revisits a rank, crosses nodes only between equal on-node indices, and that NLNR uses one NR pair per ordered node pair. The model is "
-            "tied to the code by comparing the layout and next-hop tables of every rank and the isend sequence of a single in-flight async for every "
-            "(s, d), scheme and layout of the tier's box.",
-    "note": "Trusted: Lean kernel + propext/Classical.choice/Quot.sound; the hand-written model Router.lean is tied to the code only on the "
-            "enumerated layouts (quick N*p <= 16 with N,p <= 6; thorough N,p <= 8), block placement as produced by simmpi's "
-            "MPI_Comm_split_type; a message to oneself is a one-hop route (MPI self-send), so 'never revisits' excludes s = d for the source.",
+            "offHops_NR / offHops_NLNR / NLNR_pairs_subset_NR / NLNR_single_pair / route_progress are proved twice: over YgmVerif.Router (block "
+            "placement, div/mod arithmetic) and over YgmVerif.RouterP.Placement for every well-formed placement given by the lookup tables "
+            "layout.hpp builds (block_wf, cyclic_wf: both placements are instances; block_nextHop_eq: the generic model specialises to the block "
+            "one). They state that the hop iteration of next_hop gives [d] under NONE, off/on under NR (<= 2 hops), on/off/on under NLNR (<= 3 "
+            "hops), ends at d, never revisits a rank, crosses nodes only between equal local ids, that NLNR uses one NR pair per ordered node "
+            "pair, and that every hop gets strictly closer. The model is tied to the code by comparing the layout and next-hop tables of every "
+            "rank and the isend sequence of a single in-flight async for every (s, d), scheme, layout and placement of the tier's box.",
+    "note": "Trusted: Lean kernel + propext/Classical.choice/Quot.sound; the hand-written models Router.lean / RouterP.lean are tied to the code "
+            "only on the enumerated layouts (quick: block N*p <= 16 with N,p <= 6, round-robin N*p <= 12 with N,p <= 5; thorough N,p <= 8 for "
+            "both), placements as produced by simmpi's MPI_Comm_split_type; nodes with unequal rank counts are outside the hypothesis; a message "
+            "to oneself is a one-hop route (MPI self-send), so 'never revisits' excludes s = d for the source.",
 }
 
-RULE = ("exhaustive: every layout N x p of the tier's box; tables: every rank, every destination, 3 schemes (+5 layout tables); wire: every "
-        "(s, d) pair under each scheme with one async in flight between barriers; a case = (N, p, scheme, s, d); non-trivial = s and d on "
-        "different nodes")
+RULE = ("exhaustive: every layout N x p of the tier's box under block placement and every layout of the round-robin box under cyclic placement; "
+        "tables: every rank, every destination, 3 schemes (+5 layout tables); wire: every (s, d) pair under each scheme with one async in flight "
+        "between barriers; a case = (N, p, placement, scheme, s, d); non-trivial = s and d on different nodes")
 
 SCHEMES = ["NONE", "NR", "NLNR"]
 NR_KINDS = [[False], [True], [True, False]]
 NLNR_KINDS = [[False], [True], [False, True], [True, False], [False, True, False]]
 
 
+PLACEMENTS = ["block", "cyclic"]
+
+
 def layouts(tier):
+    """(N, p, placement): block = rank r on node r / p; cyclic = rank r on node r % N (SIMMPI_PLACEMENT=cyclic)"""
     if tier == "quick":
-        return [(N, p) for N in range(1, 7) for p in range(1, 7) if N * p <= 16]
-    return [(N, p) for N in range(1, 9) for p in range(1, 9)]
+        box = [(N, p) for N in range(1, 7) for p in range(1, 7) if N * p <= 16]
+        cyc = [(N, p) for N in range(1, 6) for p in range(1, 6) if N * p <= 12]     # sub-box
+    else:
+        box = cyc = [(N, p) for N in range(1, 9) for p in range(1, 9)]
+    return [(N, p, "block") for (N, p) in box] + [(N, p, "cyclic") for (N, p) in cyc]
+
+
+def penv(pl, env=None):
+    e = dict(env or {})
+    if pl == "cyclic":
+        e["SIMMPI_PLACEMENT"] = "cyclic"
+    return e
 
 
 # ------------------------------------------------------------------ model side
 
 def model_layout(lays):
-    """{(N,p): {"layout": {me: {...}}, "hops": {me: {sch: [..]}}, "routes": {sch: {s: [[..] per d]}}}}"""
+    """{(N,p,pl): {"layout": {me: {...}}, "hops": {me: {sch: [..]}}, "routes": {sch: {s: [[..] per d]}}}} from the
+    placement-generic model YgmVerif.RouterP; for the block placement the block-only model YgmVerif.Router (the one
+    Props/C04.lean is about) is queried too, under the key (N,p,"block-only") — the two must agree (block_nextHop_eq)."""
     lines, keys = [], []
-    for (N, p) in lays:
+    for (N, p, pl) in lays:
         n = N * p
         for me in range(n):
-            lines.append(f"layout {N} {p} {me}"); keys.append((N, p, "layout", me))
-            lines.append(f"hops {N} {p} {me}"); keys.append((N, p, "hops", me))
+            lines.append(f"playout {pl} {N} {p} {me}"); keys.append((N, p, pl, "layout", me))
+            lines.append(f"phops {pl} {N} {p} {me}"); keys.append((N, p, pl, "hops", me))
+            if pl == "block":
+                lines.append(f"layout {N} {p} {me}"); keys.append((N, p, "block-only", "layout", me))
+                lines.append(f"hops {N} {p} {me}"); keys.append((N, p, "block-only", "hops", me))
         for sch in SCHEMES:
             for s in range(n):
-                lines.append(f"routes {sch} {N} {p} {s}"); keys.append((N, p, "routes", (sch, s)))
+                lines.append(f"proutes {sch} {pl} {N} {p} {s}"); keys.append((N, p, pl, "routes", (sch, s)))
+                if pl == "block":
+                    lines.append(f"routes {sch} {N} {p} {s}"); keys.append((N, p, "block-only", "routes", (sch, s)))
     out = C.model("route", lines)
     res = {}
     for k, o in zip(keys, out):
-        N, p, kind, x = k
-        d = res.setdefault((N, p), {"layout": {}, "hops": {}, "routes": {s: {} for s in SCHEMES}})
+        N, p, pl, kind, x = k
+        d = res.setdefault((N, p, pl), {"layout": {}, "hops": {}, "routes": {s: {} for s in SCHEMES}})
         parts = [q.strip() for q in o.split("|")]
         if kind == "layout":
             t = {}
@@ -195,25 +222,25 @@ def le32(hexs, off):
     return int.from_bytes(b, "little", signed=True) if len(b) == 4 else None
 
 
-def run_tables(binary, N, p):
-    sch = SCHEMES[(N + p) % 3]
-    sr = C.run_sim(binary, ["tables"], nodes=N, ppn=p, env={"YGM_COMM_ROUTING": sch}, want_log=False, timeout=300)
+def run_tables(binary, N, p, pl="block"):
+    sch = SCHEMES[(N + p + PLACEMENTS.index(pl)) % 3]
+    sr = C.run_sim(binary, ["tables"], nodes=N, ppn=p, env=penv(pl, {"YGM_COMM_ROUTING": sch}), want_log=False, timeout=300)
     return sch, sr
 
 
 POLICIES = ["uniform", "racer", "starve", "late", "burst"]
 
 
-def wire_variant(N, p, sch):
+def wire_variant(N, p, sch, pl="block"):
     """buffer size and scheduler policy of a wire job (routes must not depend on either): rotated over the jobs"""
-    k = N + 2 * p + SCHEMES.index(sch)
+    k = N + 2 * p + SCHEMES.index(sch) + 3 * PLACEMENTS.index(pl)
     return (0 if k % 2 else None), POLICIES[k % 5]
 
 
-def run_p2p(binary, N, p, sch, lo, hi, sim_seed=1):
+def run_p2p(binary, N, p, sch, lo, hi, sim_seed=1, pl="block"):
     n = N * p
-    buf, pol = wire_variant(N, p, sch)
-    env = {"YGM_COMM_ROUTING": sch}
+    buf, pol = wire_variant(N, p, sch, pl)
+    env = penv(pl, {"YGM_COMM_ROUTING": sch})
     if buf is not None:
         env["YGM_COMM_BUFFER_SIZE_KB"] = buf
     pairs = (min(hi, n) - lo) * n
@@ -222,9 +249,12 @@ def run_p2p(binary, N, p, sch, lo, hi, sim_seed=1):
                      log_bytes=16, timeout=600, max_steps=5000 + pairs * (60 * n + 600))
 
 
-def check_tables(res, N, p, envsch, sr, M, model_ok):
+def check_tables(res, N, p, envsch, sr, M, model_ok, pl="block", MB=None):
     n = N * p
-    case0 = {"N": N, "p": p, "kind": "tables"}
+    case0 = {"N": N, "p": p, "placement": pl, "kind": "tables"}
+    if model_ok and MB is not None and MB != M:
+        res.corr_failures.append({"relation": "RouterP on the block placement == Router (block_nextHop_eq / block_route_eq)",
+                                  "what": "the two models' tables differ", "case": case0})
     if sr.verdict != "ok":
         res.oracle_failures.append({"what": f"tables job failed: {sr.verdict}", "signature": "tables-run-failed",
                                     "case": dict(case0, stderr=sr.stderr[-300:])})
@@ -249,7 +279,7 @@ def check_tables(res, N, p, envsch, sr, M, model_ok):
                                     ("rank_to_local", t.get("r2l"), ml["r2l"])):
                 res.evaluations += 1
                 if real != mod:
-                    res.corr_failures.append({"relation": f"Router layout table {name} == layout.hpp", "what": f"rank {me} differs",
+                    res.corr_failures.append({"relation": f"RouterP layout table {name} == layout.hpp ({pl} placement)", "what": f"rank {me} differs",
                                               "case": dict(case0, rank=me, real=real, model=mod)})
             if t.get("layout", [])[2:] != [N, p, n, me]:
                 res.corr_failures.append({"relation": "layout sizes == (N, p, N*p, rank)", "what": f"rank {me}", "case": dict(case0, rank=me, real=t.get("layout"))})
@@ -257,7 +287,7 @@ def check_tables(res, N, p, envsch, sr, M, model_ok):
                 res.evaluations += n
                 if hop[sch][me] != mh[sch]:
                     dd = next(d for d in range(n) if hop[sch][me][d] != mh[sch][d])
-                    res.corr_failures.append({"relation": "Router.nextHop == comm_router::next_hop", "what": f"{sch}: rank {me} -> dest {dd}: real {hop[sch][me][dd]} model {mh[sch][dd]}",
+                    res.corr_failures.append({"relation": f"RouterP.nextHop == comm_router::next_hop ({pl} placement)", "what": f"{sch}: rank {me} -> dest {dd}: real {hop[sch][me][dd]} model {mh[sch][dd]}",
                                               "case": dict(case0, scheme=sch, s=me, d=dd, real=hop[sch][me], model=mh[sch])})
             if t.get("hopdef") != hop[envsch][me]:
                 res.corr_failures.append({"relation": "next_hop(dest) == next_hop(dest, configured scheme)", "what": f"rank {me} under YGM_COMM_ROUTING={envsch}",
@@ -278,7 +308,7 @@ def check_tables(res, N, p, envsch, sr, M, model_ok):
                     res.oracle_failures.append({"what": f"{sch} {s}->{d}: {what} (route {r})", "signature": sig,
                                                 "case": dict(case0, scheme=sch, s=s, d=d, route=r)})
                 if model_ok and r != M["routes"][sch][s][d]:
-                    res.corr_failures.append({"relation": "Router.route == composition of real next_hop tables", "what": f"{sch} {s}->{d}: real {r} model {M['routes'][sch][s][d]}",
+                    res.corr_failures.append({"relation": f"RouterP.route == composition of real next_hop tables ({pl} placement)", "what": f"{sch} {s}->{d}: real {r} model {M['routes'][sch][s][d]}",
                                               "case": dict(case0, scheme=sch, s=s, d=d)})
     for sig, what, extra in global_pair_failures(N, p, routes, node, "tables"):
         res.oracle_failures.append({"what": what, "signature": sig, "case": dict(case0, **{k: (list(v) if isinstance(v, tuple) else v) for k, v in extra.items()})})
@@ -290,9 +320,9 @@ def check_tables(res, N, p, envsch, sr, M, model_ok):
     return node, loc
 
 
-def check_wire(res, N, p, sch, sr, lo, hi, M, model_ok, node, loc, wire_routes):
+def check_wire(res, N, p, sch, sr, lo, hi, M, model_ok, node, loc, wire_routes, pl="block"):
     n = N * p
-    case0 = {"N": N, "p": p, "kind": "wire", "scheme": sch, "lo": lo, "hi": hi}
+    case0 = {"N": N, "p": p, "placement": pl, "kind": "wire", "scheme": sch, "lo": lo, "hi": hi}
     if sr.verdict != "ok":
         res.oracle_failures.append({"what": f"single-message run did not finish: {sr.verdict} {sr.blocked[:200]}", "signature": f"wire-run-{sr.verdict.split(':')[0]}",
                                     "case": dict(case0, stderr=sr.stderr[-300:])})
@@ -308,7 +338,7 @@ def check_wire(res, N, p, sch, sr, lo, hi, M, model_ok, node, loc, wire_routes):
         case = dict(case0, s=s, d=d)
         res.evaluations += 1
         if node[s] != node[d]:
-            res.distinct.add((N, p, sch, s, d))
+            res.distinct.add((N, p, pl, sch, s, d))
         route = [x[1] for x in g["sends"]]
         senders = [x[0] for x in g["sends"]]
         wire_routes[(s, d)] = route
@@ -327,16 +357,17 @@ def check_wire(res, N, p, sch, sr, lo, hi, M, model_ok, node, loc, wire_routes):
                     res.corr_failures.append({"relation": "every transmission carries exactly the one message with header dest = d", "what": f"{a}->{b}: bytes {nbytes} header size {sz} dest {dest}", "case": case})
         k = kinds(node, s, route) if all(0 <= h < n for h in route) else None
         res.count(sch + ":" + ("/".join("off" if x else "on" for x in k) if k else "bad"))
-        res.count("wire-policy:" + wire_variant(N, p, sch)[1])
-        res.count("wire-buffer:" + ("0" if wire_variant(N, p, sch)[0] == 0 else "default"))
+        res.count("wire-policy:" + wire_variant(N, p, sch, pl)[1])
+        res.count("wire-buffer:" + ("0" if wire_variant(N, p, sch, pl)[0] == 0 else "default"))
+        res.count("wire-placement:" + pl)
         if model_ok:
             mr = M["routes"][sch][s][d]
             if route != mr:
-                res.corr_failures.append({"relation": "Router.route == (sender,receiver) sequence on the async communicator", "what": f"{sch} {s}->{d}: wire {route} model {mr}", "case": dict(case, model=mr)})
+                res.corr_failures.append({"relation": f"RouterP.route == (sender,receiver) sequence on the async communicator ({pl} placement)", "what": f"{sch} {s}->{d}: wire {route} model {mr}", "case": dict(case, model=mr)})
             else:
                 res.traces_validated += 1
-        if (N, p, s, d) in ((2, 3, 0, 5), (3, 2, 1, 4)):
-            res.sample({"N": N, "p": p, "scheme": sch, "s": s, "d": d, "wire": case["wire"], "model_route": M["routes"][sch][s][d] if model_ok else None})
+        if (N, p, s, d) in ((2, 3, 0, 5), (3, 2, 1, 4)) and (pl == "cyclic" or sch != "NLNR") and sch != "NONE":
+            res.sample({"N": N, "p": p, "placement": pl, "scheme": sch, "s": s, "d": d, "wire": case["wire"], "model_route": M["routes"][sch][s][d] if model_ok else None})
 
 
 def guarded(res, case, fn, *a):
@@ -352,8 +383,9 @@ def guarded(res, case, fn, *a):
 def run(tier, seed, model_ok=True):
     res = C.Result()
     res.rule = RULE
-    res.assumptions = ["block placement of ranks on nodes (rank r on node r / p), as produced by simmpi's MPI_Comm_split_type",
-                       "layouts beyond the tier's box are covered by the theorems only"]
+    res.assumptions = ["the layout tables (node_id, local_id) are a bijection [0,N*p) ~ [0,N)x[0,p) (Placement.WF): every node holds the same number p of ranks",
+                       "placements run: block (rank r on node r / p) and round-robin (rank r on node r % N), as produced by simmpi's MPI_Comm_split_type; "
+                       "other placements and layouts beyond the tier's box are covered by the theorems only"]
     binary, err = C.build_harness("route")
     if binary is None:
         res.corr_failures.append({"relation": "harness builds against /repo", "what": err[-800:], "case": None})
@@ -365,34 +397,36 @@ def run(tier, seed, model_ok=True):
 
     # ---- (1) tables
     nl = {}
-    for (N, p), (envsch, sr) in zip(lays, C.pmap(lambda L: run_tables(binary, *L), lays)):
-        r = guarded(res, {"N": N, "p": p, "kind": "tables"}, check_tables, res, N, p, envsch, sr, M.get((N, p)), model_ok)
+    for (N, p, pl), (envsch, sr) in zip(lays, C.pmap(lambda L: run_tables(binary, *L), lays)):
+        r = guarded(res, {"N": N, "p": p, "placement": pl, "kind": "tables"}, check_tables, res, N, p, envsch, sr, M.get((N, p, pl)), model_ok,
+                    pl, M.get((N, p, "block-only")) if pl == "block" else None)
+        res.count("tables-placement:" + pl)
         if r:
-            nl[(N, p)] = r
+            nl[(N, p, pl)] = r
     # ---- (2) wire
     jobs = []
-    for (N, p) in lays:
-        if (N, p) not in nl:
+    for (N, p, pl) in lays:
+        if (N, p, pl) not in nl:
             continue
         n = N * p
         chunk = max(1, 384 // n)
         for sch in SCHEMES:
             for lo in range(0, n, chunk):
-                jobs.append((N, p, sch, lo, min(n, lo + chunk)))
+                jobs.append((N, p, sch, lo, min(n, lo + chunk), pl))
     jobs.sort(key=lambda j: -(j[0] * j[1]) * (j[4] - j[3]))
     wire = {}
-    outs = C.pmap(lambda j: run_p2p(binary, j[0], j[1], j[2], j[3], j[4], sim_seed=seed), jobs)
+    outs = C.pmap(lambda j: run_p2p(binary, j[0], j[1], j[2], j[3], j[4], sim_seed=seed, pl=j[5]), jobs)
     for j, sr in zip(jobs, outs):
-        N, p, sch, lo, hi = j
-        node, loc = nl[(N, p)]
-        guarded(res, {"N": N, "p": p, "kind": "wire", "scheme": sch, "lo": lo, "hi": hi}, check_wire,
-                res, N, p, sch, sr, lo, hi, M.get((N, p)), model_ok, node, loc, wire.setdefault((N, p), {}).setdefault(sch, {}))
-    for (N, p), by in wire.items():
-        node, loc = nl[(N, p)]
+        N, p, sch, lo, hi, pl = j
+        node, loc = nl[(N, p, pl)]
+        guarded(res, {"N": N, "p": p, "placement": pl, "kind": "wire", "scheme": sch, "lo": lo, "hi": hi}, check_wire,
+                res, N, p, sch, sr, lo, hi, M.get((N, p, pl)), model_ok, node, loc, wire.setdefault((N, p, pl), {}).setdefault(sch, {}), pl)
+    for (N, p, pl), by in wire.items():
+        node, loc = nl[(N, p, pl)]
         for sig, what, extra in global_pair_failures(N, p, by, node, "wire"):
-            res.oracle_failures.append({"what": what, "signature": sig, "case": dict({"N": N, "p": p, "kind": "wire", "scheme": "NLNR"}, **{k: (list(v) if isinstance(v, tuple) else v) for k, v in extra.items()})})
+            res.oracle_failures.append({"what": what, "signature": sig, "case": dict({"N": N, "p": p, "placement": pl, "kind": "wire", "scheme": "NLNR"}, **{k: (list(v) if isinstance(v, tuple) else v) for k, v in extra.items()})})
     res.exhaustive = True
-    res.notes.append(f"{len(lays)} layouts, {len(jobs)} single-message wire jobs, sim seed {seed}")
+    res.notes.append(f"{len(lays)} layouts ({sum(1 for L in lays if L[2] == 'cyclic')} with round-robin placement), {len(jobs)} single-message wire jobs, sim seed {seed}")
     return res
 
 
@@ -407,13 +441,15 @@ def replay(data):
         print("replay: nothing executable recorded:", data.get("no_longer_checks"))
         return False
     res = C.Result()
-    M = model_layout([(N, p)]).get((N, p))
-    envsch, sr = run_tables(binary, N, p)
-    nl = check_tables(res, N, p, envsch, sr, M, True)
+    pl = case.get("placement", "block")
+    MM = model_layout([(N, p, pl)])
+    M = MM.get((N, p, pl))
+    envsch, sr = run_tables(binary, N, p, pl)
+    nl = check_tables(res, N, p, envsch, sr, M, True, pl, MM.get((N, p, "block-only")) if pl == "block" else None)
     if nl and case.get("kind") == "wire":
         s = case.get("s", case.get("lo", 0))
-        sr = run_p2p(binary, N, p, case.get("scheme", "NLNR"), s, s + 1, sim_seed=data.get("seed", 1))
-        check_wire(res, N, p, case.get("scheme", "NLNR"), sr, s, s + 1, M, True, nl[0], nl[1], {})
+        sr = run_p2p(binary, N, p, case.get("scheme", "NLNR"), s, s + 1, sim_seed=data.get("seed", 1), pl=pl)
+        check_wire(res, N, p, case.get("scheme", "NLNR"), sr, s, s + 1, M, True, nl[0], nl[1], {}, pl)
     for f in res.oracle_failures[:10]:
         print("oracle:", f["signature"], f["what"])
     for f in res.corr_failures[:10]:
